@@ -22,9 +22,9 @@ fixed('F1', 'C04', ['C04.child_incomplete_at_return', 'C04.descendant_incomplete
 F2 = 'same handler recursing >= 3 levels: the recursion guard raises inside process_event, the event never completes'
 known('F2', 'C01', ['C01.missing'], 'same handler recursing >= 3 levels: the recursion guard refuses to run the handler for the third-level event (recorded as an error result of that handler since 95060a3)', 'findings/F2_C01.json')
 F4 = 'an event accepted by several buses (forwarding / re-dispatch) signals completion after the first bus; later buses add results to the completed event'
-known('F4', 'C03', ['C03.descendant_incomplete', 'C03.incomplete_at_return', 'C03.results_not_terminal'], F4)
-known('F4', 'C08', ['C08.changed_after_complete'], F4, 'findings/F4_c08.json')
-known('F4', 'C04', ['C04.descendant_incomplete', 'C04.child_incomplete_at_return', 'C04.results_not_terminal'], F4, '')
+fixed('F4', 'C03', ['C03.descendant_incomplete', 'C03.incomplete_at_return', 'C03.results_not_terminal'], '2d13127', F4)
+fixed('F4', 'C08', ['C08.changed_after_complete'], '2d13127', F4, 'findings/F4_c08.json')
+fixed('F4', 'C04', ['C04.descendant_incomplete', 'C04.child_incomplete_at_return', 'C04.results_not_terminal'], '2d13127', F4, 'findings/F4_C04.json')
 F5b = 'a handler timeout aborts an UNRELATED event that its await loop was draining inline; that event never completes'
 known('F5b', 'C10', ['C10.event_incomplete', 'C10.result_left_nonterminal', 'C10.hang'], F5b)
 known('F5b', 'C01', ['C01.missing', 'C01.hang'], F5b + ' and its remaining handlers never run', '')
@@ -47,7 +47,7 @@ fixed('F14', 'C02', ['C02.inversion'], '84bdfef', 'a run loop holds a dequeued e
 F15 = 'on a parallel_handlers bus two sibling handlers that both await children process those subtrees concurrently'
 known('F15', 'C06', ['C06.overlap'], F15)
 known('F15', 'C02', ['C02.serial_overlap'], F15 + ' (also on a serial bus reached from both)', '')
-for _f, _w in (('F4', F4), ('F5b', F5b)):
+for _f, _w in (('F5b', F5b),):
     known(_f, 'C05', ['C05.unrelated_in_window'], _w + '; the await returns the child incomplete and other handlers run before the child completes', '')
 known('F15', 'C05', ['C05.unrelated_in_window'], F15 + ', so unrelated handlers start inside an await window', '')
 known('F15', 'C04', ['C04.child_incomplete_at_return', 'C04.descendant_incomplete'], F15 + '; one polling loop takes the child the other one is waiting for', '')
